@@ -22,6 +22,7 @@ package main
 
 import (
 	"fmt"
+	"math/rand/v2"
 	"reflect"
 	"regexp"
 	"runtime/debug"
@@ -87,7 +88,8 @@ func main() {
 		"int64:min", "int64:max", "int32:min", "int8:max", "uint64:above-int64",
 		"string:empty", "string:multibyte", "string:nul", "bytes:nil", "bytes:empty", "bytes:fixed",
 		"list:nil", "list:empty", "list:nil-element", "list:nested", "map:nil", "map:empty", "map:string-key", "map:int-key",
-		"struct", "arrowser", "ptr:nil:struct", "ptr:nil:int", "ptr:nil:string", "ptr:nil:list", "ptr:set:list")
+		"struct", "arrowser", "ptr:nil:struct", "ptr:nil:int", "ptr:nil:string", "ptr:nil:list", "ptr:set:list",
+		"dict:multi-entry:non-first-selected")
 
 	nDyn := r.N(260, 3000)
 	perType := r.N(120, 900) // values per type, split over the arms
@@ -173,6 +175,7 @@ func main() {
 			for ci := w; ci < len(cases); ci += workers {
 				tc := cases[ci]
 				rng := r.Rand(2, uint64(ci))
+				drng := r.Rand(6, uint64(ci))
 				n := perType
 				if tc.static {
 					n *= 3
@@ -205,11 +208,18 @@ func main() {
 					}
 					r.Case(sig)
 					var vs []viol
+					// Every second round of the four arms sends hand-built
+					// multi-entry dictionaries; the other keeps the library's
+					// own single-entry encoding.
+					var dict *dictOpt
+					if (k/4)%2 == 0 {
+						dict = &dictOpt{rng: drng, cls: cls}
+					}
 					switch arm {
 					case "hooks":
-						vs = roundTripHooks(tc, v)
+						vs = roundTripHooks(tc, v, dict)
 					case "pipe-echo":
-						vs = roundTripPipe(srv, nil, tc, v)
+						vs = roundTripPipe(srv, nil, tc, v, dict)
 					default:
 						if sess == nil || sess.Dead() {
 							if sess != nil {
@@ -217,7 +227,7 @@ func main() {
 							}
 							sess = wc.NewPipeSession(srv)
 						}
-						vs = roundTripPipe(srv, sess, tc, v)
+						vs = roundTripPipe(srv, sess, tc, v, dict)
 					}
 					results[ci] = append(results[ci], vs...)
 				}
@@ -435,7 +445,7 @@ func compare(tc *typeCase, arm, stage string, orig, got reflect.Value) []viol {
 		witness(tc, arm, orig, map[string]any{"field": where, "class": class, "difference": why, "decoded": wc.RenderStruct(tc.ss, got)})}}
 }
 
-func encode(tc *typeCase, arm string, v reflect.Value) (rec arrow.RecordBatch, vs []viol) {
+func encode(tc *typeCase, arm string, v reflect.Value, dict *dictOpt) (rec arrow.RecordBatch, vs []viol) {
 	defer func() {
 		if rv := recover(); rv != nil {
 			vs = []viol{{"panic:encode:" + normMsg(fmt.Sprint(rv)), fmt.Sprintf("[%s] serializeVgirpcStruct panicked: %v", arm, rv),
@@ -454,7 +464,26 @@ func encode(tc *typeCase, arm string, v reflect.Value) (rec arrow.RecordBatch, v
 		recs[0].Release()
 		return nil, []viol{expectedSchemaViolation(tc, sc, "serialized stream")}
 	}
+	if dict != nil {
+		// Same logical batch, dictionary columns rebuilt by hand: 2..6 distinct
+		// entries, the selected entry mostly not the first (see wc/dict.go).
+		rb, st := wc.RebuildDictionaries(dict.rng, recs[0])
+		recs[0].Release()
+		recs[0] = rb
+		if st.NonFirstSelected > 0 {
+			dict.cls["dict:multi-entry:non-first-selected"]++
+		}
+		if st.Arrays > 0 {
+			dict.cls["dict:multi-entry"]++
+		}
+	}
 	return recs[0], nil
+}
+
+// dictOpt asks encode to rebuild dictionary columns by hand.
+type dictOpt struct {
+	rng *rand.Rand
+	cls map[string]int
 }
 
 func decode(tc *typeCase, arm, stage string, orig reflect.Value, rec arrow.RecordBatch) (got reflect.Value, vs []viol) {
@@ -471,8 +500,8 @@ func decode(tc *typeCase, arm, stage string, orig reflect.Value, rec arrow.Recor
 	return got, nil
 }
 
-func roundTripHooks(tc *typeCase, v reflect.Value) []viol {
-	rec, vs := encode(tc, "hooks", v)
+func roundTripHooks(tc *typeCase, v reflect.Value, dict *dictOpt) []viol {
+	rec, vs := encode(tc, "hooks", v, dict)
 	if vs != nil {
 		return vs
 	}
@@ -484,12 +513,12 @@ func roundTripHooks(tc *typeCase, v reflect.Value) []viol {
 	return compare(tc, "hooks", "decode(encode(v))", v, got)
 }
 
-func roundTripPipe(srv *vgirpc.Server, sess *wc.PipeSession, tc *typeCase, v reflect.Value) []viol {
+func roundTripPipe(srv *vgirpc.Server, sess *wc.PipeSession, tc *typeCase, v reflect.Value, dict *dictOpt) []viol {
 	arm := "pipe-echo"
 	if sess != nil {
 		arm = "pipe-session"
 	}
-	rec, vs := encode(tc, arm, v)
+	rec, vs := encode(tc, arm, v, dict)
 	if vs != nil {
 		return vs
 	}
